@@ -22,7 +22,8 @@ PROPS = {
                           "threads.uvl"]},
     "C02": {"scenarios": ["roundtrip.json", "roundtrip.fide", "roundtrip.glencoe",
                           "roundtrip.afm", "roundtrip.uvl", "third-party", "uvl-peer",
-                          "roundtrip.mixed", "serialise", "threads.third"]},
+                          "roundtrip.mixed", "serialise", "threads.third", "third-party",
+                          "third-party"]},
     "C04": {"scenarios": ["uvl-peer", "uvl-peer", "roundtrip.uvl", "uvl-peer",
                           "threads.uvl-docs"]},
     "C05": {"scenarios": ["roundtrip.json", "roundtrip.json", "roundtrip.json",
